@@ -13,6 +13,9 @@ from harness.props.c13 import enc, canon, parse_arr, call, short, step_spec, ste
 
 
 # ----------------------------------------------------------------------------- helpers
+MARGIN = {"max_deviation_over_tolerance": 0.0, "comparisons": 0}   # of all passing entrywise-relative comparisons below
+
+
 def rel_eq(a, b, tol=1e-12, scale=None):
     """entrywise comparison, relative to the entry itself (or to `scale`, same shape): nan==nan, inf==inf,
     0 must be 0.  No absolute slack: an entry of size 1 next to one of size 1e17 must still be right."""
@@ -29,6 +32,9 @@ def rel_eq(a, b, tol=1e-12, scale=None):
                 return False
         elif abs(x - y) > tol * t:
             return False
+        elif tol > 0 and t > 0:
+            MARGIN["max_deviation_over_tolerance"] = max(MARGIN["max_deviation_over_tolerance"], abs(x - y) / (tol * t))
+            MARGIN["comparisons"] += 1
     return True
 
 
@@ -529,6 +535,12 @@ def part_stephist(ctx, cuqi, thorough):
 
 
 # ----------------------------------------------------------------------------- entry: one driver call for the three streams
+def generators(ctx, cuqi, thorough):
+    """the four streams of this module as generators (driven by `run` of c13.py together with the other streams)"""
+    return [part_scales(ctx, cuqi, thorough), part_klhist(ctx, cuqi, thorough), part_stephist(ctx, cuqi, thorough),
+            part_ctor(ctx, cuqi, thorough)]
+
+
 def run_all(ctx, cuqi, thorough):
     """the three parts are generators: first they yield their model lines, then they are sent the model outputs
     (one `drive` call for all of them: every call waits for the shared build lock)"""
@@ -773,6 +785,7 @@ def part_ctor(ctx, cuqi, thorough):
                 if len(sh) >= (2 if k == "S" else 1) and (isinstance(g, BaseException) or g.par_dim != want):
                     ctx.fail(key, desc, f"default geometry of dimension {want}", impl[:80], "default geometry does not match the array")
     ctx.extra_cov["ctor_stats"] = stat
+    ctx.extra_cov["ext_relative_comparison_margin"] = dict(MARGIN)    # last stream: covers scales / histories / ctor
 
 
 def ints_(rng, shape, lo=-9, hi=9):
